@@ -8,8 +8,11 @@ META = {
     "level": "proof",
     "level_text": "Theorems in props/C05.v over the model of Channel.send/recv and the stream read/write loops: for every packet sequence, either compression "
                   "setting on either side, every split of writes and reads and every interleaving of timeouts/would-blocks the receiver gets exactly the packets sent; "
-                  "for every cut point or transport error it gets an exact prefix of whole packets (that the stream is then CLOSED and every later recv/send fails with "
-                  "EOFError at once is not in the model - failure there is just an outcome - and is checked on the real classes by the harness); under ANY write behaviour (partial sends, "
+                  "for every cut point or transport error it gets an exact prefix of whole packets; the CLOSED state is model/ChannelS.v (sessions: any sequence of sends and receives on "
+                  "one stream, both directions): an operation on an open stream reports EOFError exactly when it leaves the stream closed, after the first EOFError every later operation "
+                  "fails with EOFError and the transport is exactly as it was (c05_closed_stream_is_final, c05_eof_iff_closed, c05_open_until_eof), an undescribable packet is refused "
+                  "without touching anything; generated sessions run on the real classes and through the model (outcome of every operation, closed flag, bytes on the wire, transport "
+                  "events and bytes left must coincide); under ANY write behaviour (partial sends, "
                   "failure after any byte) the wire holds a prefix of the frame - all of it exactly when send returned - and a reader of that wire gets whole leading "
                   "packets only (c05_writer_any_transport, c05_writer_fault_seen_by_reader). zlib is a section variable with "
                   "decompress(compress x) = x. Threshold/chunk/header/flusher, the comparison operators and the pipe-tolerance fact are regenerated from channel.py/stream.py/consts.py; the read/write/send/recv loops themselves are hand-written in the model and pinned to the source by text snapshots of every method of both stream classes, Stream, Channel and compat.get_exc_errno (any edit breaks the tie) plus the differential run; the "
@@ -21,7 +24,7 @@ META = {
     "gen": ["consts", "channel", "stream"],
     "shapes": ["channel.*", "stream.*"],
     "models": ["channel"],
-    "model_files": ["Channel"],
+    "model_files": ["Channel", "ChannelS"],
     "assumptions": ["zlib.decompress(zlib.compress(x, level)) == x (Section hypothesis in the theorems; exercised on every compressed case)",
                     "socket oracle: recv returns 1..requested bytes or b'' only at end of stream; send accepts >= 1 byte or raises"],
 }
@@ -399,6 +402,98 @@ def enc_case(cs):
     d = dict(cs); d["pkts"] = [p.hex() for p in cs["pkts"]]; return d
 
 
+def impl_session(kind, cmp, revs, avail, wevs, ops):
+    """one real Channel over one fake transport used in both directions; returns (outcomes, closed, wire, events/bytes left, zlib spy,
+    what the transport looked like right after the first EOFError)"""
+    fs = FakeSock(revs=[list(e) for e in revs], wevs=[list(e) for e in wevs], avail=avail)
+    st = make_stream(kind, fs)
+    ch = Channel(st, compress=cmp)
+    spy = ZSpy()
+    old_z, old_os = chmod.zlib, stmod.os
+    chmod.zlib = spy
+    if kind == "pipe":
+        stmod.os = FakeOS(fs)
+    outs, at_eof = [], None
+    snap = lambda: (bytes(fs.wire), len(fs.revs), len(fs.wevs), len(fs.avail))
+    try:
+        for op in ops:
+            try:
+                if op[0] == 0:
+                    ch.send(op[1]); outs.append(["sent"])
+                else:
+                    outs.append(["got", ch.recv()])
+            except EOFError:
+                outs.append(["eof"])
+                if at_eof is None:
+                    at_eof = snap()
+            except zlib.error:
+                outs.append(["zlib"])
+            except Exception as e:
+                outs.append(["exc", C.exc_enum(e)])
+    finally:
+        chmod.zlib, stmod.os = old_z, old_os
+    return outs, bool(st.closed), snap(), spy, at_eof
+
+
+def gen_session(r):
+    kind = r.choice(["sock", "pipe"])
+    cmp = r.random() < 0.5
+    # what the peer's side holds for us: whole frames of a few packets, possibly cut, possibly with a corrupted flag byte
+    pk = [payload(r, r.choice([0, 1, 5, 100, 2999, 3001, 5000] + ([63994, 64001] if r.random() < 0.15 else []))) for _ in range(r.choice([0, 1, 2, 3]))]
+    _, wire, _, _, _ = impl_send("sock", r.random() < 0.5, [], pk)
+    if r.random() < 0.6 and wire:
+        wire = wire[:r.randrange(len(wire) + 1)]
+    revs = gen_revs(r, len(wire))
+    if revs and r.random() < 0.35:
+        revs.insert(r.randrange(len(revs) + 1), [r.choice([3, 4])])       # a read error / end of stream event
+    wevs = gen_wevs(r)
+    if r.random() < 0.35:
+        wevs.insert(r.randrange(len(wevs) + 1), [1])                       # a write error
+    ops = []
+    for _ in range(r.choice([2, 4, 6, 9])):
+        ops.append([0, payload(r, r.choice([0, 1, 7, 100, 3001] + ([64000] if r.random() < 0.1 else [])))] if r.random() < 0.45 else [1])
+    return {"session": True, "kind": kind, "cmp": cmp, "revs": revs, "avail": wire, "wevs": wevs, "ops": ops}
+
+
+def enc_session(cs):
+    return dict(cs, avail=cs["avail"].hex(), ops=[[0, o[1].hex()] if o[0] == 0 else [1] for o in cs["ops"]])
+
+
+def dec_session(cs):
+    return dict(cs, avail=bytes.fromhex(cs["avail"]), ops=[[0, bytes.fromhex(o[1])] if o[0] == 0 else [1] for o in cs["ops"]])
+
+
+def session_phase(ctx, model, cases):
+    P = params()
+    mcases, plan = [], []
+    for cs in cases:
+        outs, closed, left, spy, at_eof = impl_session(cs["kind"], cs["cmp"], cs["revs"], cs["avail"], cs["wevs"], cs["ops"])
+        kinds = [o[0] for o in outs]
+        ctx.case(("session", cs["kind"], cs["cmp"], tuple(kinds), len(cs["avail"]), tuple(map(tuple, cs["revs"][:5])), tuple(map(tuple, cs["wevs"][:5]))),
+                 nontrivial=len(set(kinds)) > 1, sample={"session": cs["kind"], "ops": ["send %d" % len(o[1]) if o[0] == 0 else "recv" for o in cs["ops"]], "outcomes": kinds, "closed": closed})
+        ctx.count("session:" + ("ends-in-eof" if "eof" in kinds else "stays-open")); ctx.count("session-kind:" + cs["kind"])
+        # -------- the statement, on the real classes
+        if "eof" in kinds:
+            i = kinds.index("eof")
+            if any(k != "eof" for k in kinds[i:]) or not closed or at_eof != left:
+                ctx.violation("use-after-end-not-EOFError:session:" + cs["kind"], enc_session(cs), observed={"outcomes": kinds, "closed": closed, "transport at first EOFError": repr(at_eof)[:120], "at the end": repr(left)[:120]},
+                              expected="EOFError from the first one on, stream closed, transport untouched afterwards", what="after the stream ended a later operation did not fail with EOFError at once, or touched the transport")
+        elif closed:
+            ctx.violation("closed-without-EOFError:session:" + cs["kind"], enc_session(cs), observed=kinds, expected="open", what="the stream is closed although no operation reported EOFError")
+        if model is not None:
+            tol = True if cs["kind"] == "sock" else PIPE_TOLERANT()
+            mcases.append(["session", P, tbl(spy.c), tbl(spy.d), tol, cs["cmp"], cs["revs"], cs["avail"], cs["wevs"], cs["ops"]])
+            plan.append((cs, outs, closed, left))
+    if model is not None and mcases:
+        for (cs, outs, closed, left), m in zip(plan, model.batch(mcases)):
+            ctx.model_traces += 1
+            mo = [[x.decode() if i == 0 or o[0] == b"exc" else x for i, x in enumerate(o)] for o in m[1]] if m[0] == b"ok" else m
+            want = [[o[0]] + [bytes(x) if isinstance(x, (bytes, bytearray)) else x for x in o[1:]] for o in outs]
+            if m[0] != b"ok" or mo != want or bool(m[2]) != closed or (bytes(m[3]), m[4], m[5], m[6]) != left:
+                ctx.tie_broken("correspondence:session", "case %s model %s closed %s left %s impl %s closed %s left %s" % (
+                    repr(enc_session(cs))[:600], repr(mo)[:200], m[2] if m[0] == b"ok" else "-", repr(m[3:])[:80] if m[0] == b"ok" else "-", repr(want)[:200], closed, repr(left)[:80]))
+
+
 def run(ctx):
     r = ctx.rng
     model = C.Model("channel"); model = model if model.available() else None
@@ -418,6 +513,10 @@ def run(ctx):
     for cs in cases:
         cs["pkts"] = list(cs["pkts"])
     _run(ctx, model, cases)
+    # sessions: one stream, both directions, over its whole life (the closed state)
+    fixed = [{"session": True, "kind": k, "cmp": True, "revs": [[0, 4], [1]], "avail": impl_send("sock", True, [], [b"a"])[1] + impl_send("sock", True, [], [b"bc"])[1][:3],
+              "wevs": [[0, 4], [0, 100], [0, 1]], "ops": [[0, b"z"], [1], [1], [0, b"z"], [1]]} for k in ("sock", "pipe")]
+    session_phase(ctx, model, fixed + [gen_session(r) for _ in range(300 if ctx.quick else 8000)])
 
 
 class _Enc(dict):
@@ -439,6 +538,9 @@ def _run(ctx, model, cases):
 
 def replay(ctx, rep):
     cs = rep["case"]
+    if cs.get("session"):
+        model = C.Model("channel"); model = model if model.available() else None
+        return session_phase(ctx, model, [dec_session(cs)])
     cs["pkts"] = [bytes.fromhex(p) for p in cs["pkts"]]
     model = C.Model("channel"); model = model if model.available() else None
     _run(ctx, model, [cs])
